@@ -563,11 +563,22 @@ func execute(p Plan) error {
 			digest := bytes.Repeat([]byte{0x42}, 32)
 			var sets []ecSet
 			for j, c := range []elliptic.Curve{elliptic.P256(), elliptic.P384(), elliptic.P521(), elliptic.P224()} {
-				sk, _ := patecdsa.CreateKey(c, append([]byte{1, byte(j)}, seed[:20]...))
-				bk, _ := patecdsa.CreateKey(c, append([]byte{2, byte(j)}, seed[:20]...))
-				bp, _ := patecdsa.BlindPublicKeyWithContext(c, &sk.PublicKey, bk, ctx)
-				r0, s0, _ := patecdsa.Sign(rt.NewDRBG(seed), sk, digest)
-				der0, _ := patecdsa.SignASN1(rt.NewDRBG(seed), sk, digest)
+				// the SHARED key objects are created here and not used before the goroutines start (anything computed or
+				// normalised lazily inside a key object happens under concurrency); expectations come from separate objects
+				// made from the same bytes. In half the plans the key bytes are longer than the group order (value >= N).
+				skBytes, bkBytes := append([]byte{1, byte(j)}, seed[:20]...), append([]byte{2, byte(j)}, seed[:20]...)
+				if seed[3]%2 == 0 {
+					size := (c.Params().N.BitLen() + 7) / 8
+					skBytes = append(bytes.Repeat([]byte{0xf1}, size+2-20), seed[:20]...)
+					bkBytes = append(bytes.Repeat([]byte{0xe3}, size+1-20), seed[:20]...)
+				}
+				sk, _ := patecdsa.CreateKey(c, skBytes)
+				bk, _ := patecdsa.CreateKey(c, bkBytes)
+				skRef, _ := patecdsa.CreateKey(c, skBytes)
+				bkRef, _ := patecdsa.CreateKey(c, bkBytes)
+				bp, _ := patecdsa.BlindPublicKeyWithContext(c, &skRef.PublicKey, bkRef, ctx)
+				r0, s0, _ := patecdsa.Sign(rt.NewDRBG(seed), skRef, digest)
+				der0, _ := patecdsa.SignASN1(rt.NewDRBG(seed), skRef, digest)
 				sets = append(sets, ecSet{c, sk, bk, bp, r0, s0, der0})
 			}
 			first := int(seed[1]) % 4
